@@ -91,8 +91,9 @@ def collect(schema, doc_text, loop):
     return loop.run_until_complete(main())
 
 
-def _stream(n: int, o0: int, o1: int, o2: int, o3: int, t0: int, t1: int, t2: int, t3: int, asyncres: bool, asyncfields: bool) -> bool:
+def _stream(n: int, o0: int, o1: int, o2: int, o3: int, t0: int, t1: int, t2: int, t3: int, asyncres: bool, asyncfields: bool, alias: int = 0) -> bool:
     """
+    pre: 0 <= alias <= 2 and (alias == 0 or thorough() or (t0 == 0 and t1 == 0 and not asyncfields))
     pre: 0 <= n <= N_EVENTS
     pre: 0 <= o0 < 9 and 0 <= o1 < 9 and 0 <= o2 < 9 and 0 <= o3 < 9
     pre: 0 <= t0 <= 2 and 0 <= t1 <= 2 and 0 <= t2 <= 1 and 0 <= t3 <= 1
@@ -110,6 +111,7 @@ def _stream(n: int, o0: int, o1: int, o2: int, o3: int, t0: int, t1: int, t2: in
     os_ = [concrete_int(raw_o[i], 0, 8) for i in range(N)]
     ts = [concrete_int(raw_t[i], 0, 2) for i in range(N)]
     AR, AF = (True if asyncres else False), (True if asyncfields else False)
+    ALIAS = concrete_int(alias, 0, 2)
     with untraced():
         outs = [(OUT[o // 3], OUT[o % 3]) for o in os_[:N]]
         events = [event_for(k, ov, ow) for k, (ov, ow) in enumerate(outs)]
@@ -118,7 +120,9 @@ def _stream(n: int, o0: int, o1: int, o2: int, o3: int, t0: int, t1: int, t2: in
         schema = make_schema(holder, AR, async_fields=AF)
         loop = DetLoop()
         try:
-            got = collect(schema, "subscription { counter { v w k } }", loop)
+            got = collect(schema, ("subscription { counter { v w k } }", "subscription { al: counter { v w k } }", "subscription { other: counter { v w k } }")[ALIAS], loop)
+            key = ("counter", "al", "other")[ALIAS]
+            got = [({"counter": d[key]} if isinstance(d, dict) and key in d else d, e) for d, e in got]
         finally:
             loop.close()
         exp = [expected_for(k, ov, ow) for k, (ov, ow) in enumerate(outs)]
@@ -214,6 +218,7 @@ REFUSALS = (
     ("control-same-field-twice", "subscription { counter { v } counter { w } }", True, True, False),
     ("control-through-fragments", "subscription { ...F ... { counter { w } } } fragment F on Subscription { counter { v } }", True, True, False),
     ("control-skipped-second-field", "subscription { counter { v } other @skip(if: true) { v } }", True, True, False),
+    ("control-aliased", "subscription { counter: counter { v } }", True, True, False),
 )
 
 
@@ -256,11 +261,11 @@ CONDITIONS = [
     Cond(
         name="stream", fn=_stream, quick=150, thorough=900, per_path=60, shards_quick=16, shards_thorough=32,
         bound="every source stream of 0..3 (thorough 4) events, each event with 3 x 3 outcomes (value / null / ResolverError) for two sub-fields, 0..1 loop ticks before each of the first two events, "
-              "sync or async subscription resolver, sync or async field resolvers",
-        symbolic={"n": "choice: number of events", "o0..o3": "choice: per-event outcomes", "t0..t3": "choice: delays", "asyncres,asyncfields": "choice"},
+              "sync or async subscription resolver, sync or async field resolvers, the root field plain / aliased / aliased with the NAME of another subscription field",
+        symbolic={"n": "choice: number of events", "o0..o3": "choice: per-event outcomes", "t0..t3": "choice: delays", "asyncres,asyncfields": "choice", "alias": "choice: alias of the root field"},
         assumptions=["DetLoop (time() == 0.0), real asyncio scheduling otherwise; stub source stream counts __anext__ calls",
                      "oracle: k-th result = selection executed with event k as root; errors of event k only"],
-        witness={"n": 2, "o0": 0, "o1": 2, "o2": 0, "o3": 0, "t0": 0, "t1": 1, "t2": 0, "t3": 0, "asyncres": False, "asyncfields": False},
+        witness={"n": 2, "o0": 0, "o1": 2, "o2": 0, "o3": 0, "t0": 0, "t1": 1, "t2": 0, "t3": 0, "asyncres": False, "asyncfields": False, "alias": 0},
     ),
     Cond(
         name="event_values", fn=_event_values, quick=120, thorough=300, per_path=60, shards_quick=14, shards_thorough=14,
